@@ -31,6 +31,7 @@ pub fn list() -> Vec<(&'static str, super::Scenario)> {
         ("indep_wake", indep_wake),
         ("panic_many", panic_many),
         ("sync_wipe", sync_wipe),
+        ("repoll", repoll),
     ]
 }
 
@@ -2117,5 +2118,95 @@ fn sync_wipe(cfg: &Cfg) {
         all.push(x);
     }
     finish(&w, &all, pool);
+    shutdown();
+}
+
+/// C01 / C07: a returned future that once drained its queue itself is polled again much later, after the queue has changed
+/// hands twice.  The pool (`pool` threads) is pinned; the caller polls FD (two awaits: g1, g2) by hand, so the future runs the
+/// queue itself and suspends at g1; the pool is released and takes the queue over (re-polls, suspends again), then it is
+/// pinned once more; g1 fires with no free thread; a second context (`who`: 0 a thread in sync, 1 a task awaiting another
+/// future_desync, 2 a thread in try_sync + sync) becomes the runner and suspends at g2 with a desync queued behind; the
+/// caller polls the old future again while g2 fires.
+fn repoll(cfg: &Cfg) {
+    let pool = cfg.pool();
+    setup(pool);
+    let who = cfg.opt("who", 0);
+    let w = World::new();
+    w.prelude(cfg);
+    let q = mkobj(&w, cfg);
+    let (g1, g2) = (Gate::new(), Gate::new());
+    let (bg1, bg2) = (BGate::new(), BGate::new());
+    let mut pins: Vec<Obj> = vec![];
+    for i in 0..pool {
+        let b = w.raw();
+        w.desync(&b, &format!("PIN-A{}", i), Body::blocking(&bg1));
+        pins.push(b);
+    }
+    rt::quiesce();
+    let mut h = w.future_desync(&q, "FD", Body { gate: Some(g1.clone()), gate2: Some(g2.clone()), ..Body::default() });
+    let mut f = Box::pin(h.fut.take().unwrap());
+    let (wk, _count) = counting_waker();
+    let mut cx = futures::task::Context::from_waker(&wk);
+    use std::future::Future;
+    let mut resolved = false;
+    let mut poll_fd = |f: &mut std::pin::Pin<Box<desync::scheduler::SchedulerFuture<u64>>>, resolved: &mut bool| {
+        if *resolved {
+            return;
+        }
+        if let futures::task::Poll::Ready(r) = f.as_mut().poll(&mut cx) {
+            *resolved = true;
+            if r != Ok(h.token) {
+                rt::violation("FUTURE-RESULT FD resolved to the wrong value".into());
+            }
+        }
+    };
+    poll_fd(&mut f, &mut resolved);
+    // the pool comes back and takes the suspended queue over
+    bg1.open();
+    rt::quiesce();
+    for i in 0..pool {
+        w.desync(&pins[i], &format!("PIN-B{}", i), Body::blocking(&bg2));
+    }
+    rt::quiesce();
+    // first event: nobody is free to run the queue
+    g1.open();
+    rt::quiesce();
+    // a second context becomes the runner and suspends at the second await
+    let t = {
+        let (w1, q1) = (w.clone(), q.clone());
+        spawn(move || match who {
+            0 => {
+                w1.sync(&q1, "S", Body::plain());
+            }
+            1 => w1.future_desync(&q1, "FD2", Body::plain()).wait(),
+            _ => {
+                w1.try_sync(&q1, "T", Body::plain());
+                w1.sync(&q1, "S", Body::plain());
+            }
+        })
+    };
+    rt::quiesce();
+    w.desync(&q, "D", Body::plain());
+    let opener = {
+        let g = g2.clone();
+        spawn(move || g.open())
+    };
+    // the old future is polled again, at every moment relative to the second event
+    poll_fd(&mut f, &mut resolved);
+    join(opener, "opener");
+    join(t, "second-context");
+    bg2.open();
+    rt::quiesce();
+    if !resolved {
+        let prev = rt::note("in:await-fd FD");
+        let r = block_on(f);
+        rt::note(&prev);
+        if r != Ok(h.token) {
+            rt::violation("FUTURE-RESULT FD (awaited late) resolved to the wrong value".into());
+        }
+    }
+    let mut objs: Vec<&Obj> = vec![&q];
+    objs.extend(pins.iter());
+    finish(&w, &objs, pool);
     shutdown();
 }
